@@ -95,8 +95,10 @@ class Gen:
             return f":param {self.word()}: {w}"
         if r < 0.90:
             return "* " + w
-        if r < 0.93 and style != "numpy":
-            return "-----"
+        if r < 0.93:
+            # a dash-only / equals-only line right under a text line: Markdown setext heading, RST sub-heading or table
+            # border, horizontal rule.  Inside an (indented) item description it is ordinary text in every style.
+            return self.rng.choice(["-----", "---", "-" * self.rng.randint(2, 12), "=====", "- - -"])
         return w
 
     def first_line(self) -> str:
